@@ -547,6 +547,28 @@ def r_layout_order(model, rep):
             brk = [ev for ev in cx.events if ev.kind == "break" and ev.loops == e.loops and ev.seq > src.seq
                    and facts.canon_guards(ev.guards) == facts.canon_guards(src.guards)]
             okl = len(brk) == 1
+    if not okl and len(legacy) == 1 and not legacy[0].loops and legacy[0].value[0] == "call" and legacy[0].value[1] == ("global", "next"):
+        # the scan spelled as "first match or None": next((<path>/<sub> for <sub> in listdir(<path>) if exists(<path>/<sub>/metadata)),
+        # None), stored only when it is not None
+        e = legacy[0]
+        V = e.value
+        var = ("bound", "$0")
+        p = ("call", ("global", "os.path.join"), (cp, var), ())
+        mp = ("call", ("global", "os.path.join"), (p, ("const", "metadata")), ())
+        want_v = ("call", ("global", "next"), (("comp", "gen", p, ((("names", "$0"), ("call", ("global", "os.listdir"), (cp,), ()),
+                                                                   (("call", ("global", "_file_exists"), (mp,), ()),)),)), ("const", None)), ())
+        has_scheme = ("cmp", ("in",), (("const", "://"), cp))
+        exists_cp = ("call", ("global", "os.path.exists"), (cp,), ())
+        atoms = set(facts.canon_guard(a) for a in facts.flat_atoms(e.guards))
+        need = {facts.canon_guard((probe, False)), facts.canon_guard((has_scheme, False)), facts.canon_guard((exists_cp, True))}
+        notnone = facts.canon_guard((("cmp", ("is not",), (V, ("const", None))), True))
+        stored_when_found = notnone in atoms
+        if not stored_when_found:
+            # the condition sits on the store itself (a helper's result tested as a whole): what it says on this path
+            sc = facts.Scenario(cx, atoms={probe: False, has_scheme: False, exists_cp: True})
+            gs = [sc.term(g[0]) for g in e.store.raw_guards if g[1] is True]
+            stored_when_found = any(facts.canon_guard((T.degate(g), True)) == notnone for g in gs)
+        okl = V == want_v and need <= atoms and atoms - need <= {notnone} and stored_when_found
     rep.ob("R-LAYOUT-ORDER", "Compose.__init__:legacy-scan", okl, site=cx.site(legacy[0].store.lineno if legacy else f.node),
            msg="" if okl else "the legacy scan must run only when <path>/compose was not chosen, for local existing paths, choose "
                               "<path>/<sub> when <path>/<sub>/metadata exists and stop at the first hit")
@@ -617,6 +639,10 @@ def r_rte_wrap(model, rep):
         x = ss[0]
         p = ("call", ("global", "os.path.join"), (("attr", S, "compose_path"), x.elem), ())
         ok = x.test == ("call", ("global", "_file_exists"), (p,), ())
+        if x.form == "next":
+            # first match or None, refused when None: what is handed out is that first match, after the refusal
+            ok = ok and x.value == p and all(r.value == x.term and r.seq > x.raise_ev.seq and not r.loops for r in rets)
+            rets = []
         for r in rets:
             vals = [a for a in T.alts(r.value) if a[0] not in ("undef", "carried")]
             ok = ok and vals == [p]
